@@ -104,12 +104,18 @@ fn main() {
                 Some(format!("hash {} {}", a, b))
             }
             ["layout", i] => Some(format!("layout {}", (reg[i.parse::<usize>().unwrap()].layout)())),
+            ["schema", i, val] => Some(match parse(val) {
+                Some(t) => format!("schema {}", (reg[i.parse::<usize>().unwrap()].schema)(&t)),
+                None => "badval".into(),
+            }),
             ["xxh", h] => Some(format!("xxh {}", xxhash_rust::xxh3::xxh3_64(&unhex(h)))),
             [""] => None,
             _ => Some("bad-op".into()),
         };
         if let Some(a) = ans {
             writeln!(out, "{}", a).unwrap();
+            // flushed per line: if the process aborts, everything answered so far has been delivered
+            out.flush().unwrap();
         }
     }
     out.flush().unwrap();
